@@ -24,8 +24,8 @@ KINDS = {0: "Unit", 1: "TwoRollPass", 2: "Transport", 3: "PassSequence"}
 
 
 def _imports():
-    from pyroll.core import Unit, PassSequence, TwoRollPass, Transport, Roll, BoxGroove
-    return Unit, PassSequence, TwoRollPass, Transport, Roll, BoxGroove
+    from pyroll.core import Unit, PassSequence, BaseRollPass, Transport, Roll, BoxGroove
+    return Unit, PassSequence, BaseRollPass, Transport, Roll, BoxGroove
 
 
 class Real:
@@ -77,9 +77,13 @@ class Real:
                 if k == 0:
                     u = Unit(label=f"L{lab}")
                 elif k == 1:
-                    u = TwoRollPass(roll=self.roll, label=f"L{lab}")
+                    # every kind of roll pass / transport counts for roll_passes / transports
+                    from pyroll.core import TwoRollPass as _Two, ThreeRollPass as _Three
+                    cls_ = _Three if (lab + len(self.units)) % 3 == 0 else _Two
+                    u = cls_(roll=self.roll, label=f"L{lab}")
                 else:
-                    u = Transport(label=f"L{lab}")
+                    from pyroll.core import CoolingPipe as _Pipe
+                    u = (_Pipe if (lab + len(self.units)) % 3 == 0 else Transport)(label=f"L{lab}")
                 return f"u{self.reg(u)}"
             if name == "seq":
                 s = PassSequence([self.units[i] for i in op[2]], label=f"L{op[1]}")
@@ -204,8 +208,11 @@ class Real:
                     first = next(x for x in lst if x.label == u.label)
                     if s[u.label] is not first:
                         probs.append(f"seq u{sid}['{u.label}'] is not the first match")
-                if len(lst) >= 2 and s[1:] != lst[1:]:
-                    probs.append(f"seq u{sid}[1:] disagrees")
+                n_ = len(lst)
+                for sl in (slice(1, None), slice(None, -1), slice(-2, None), slice(1, n_ - 1), slice(None, None, 2),
+                           slice(None, None, -1), slice(n_ + 2, None), slice(-n_ - 3, 2)):
+                    if s[sl] != lst[sl]:
+                        probs.append(f"seq u{sid}[{sl.start}:{sl.stop}:{sl.step}] disagrees with the list")
                 if [id(x) for x in s.roll_passes] != [id(x) for x in lst if isinstance(x, TwoRollPass)]:
                     probs.append(f"seq u{sid}.roll_passes is not the order-preserving sub-list")
                 if [id(x) for x in s.transports] != [id(x) for x in lst if isinstance(x, Transport)]:
